@@ -9,6 +9,12 @@ def generate(tier, rng):
     derives = ['Display', 'AsRefStr', 'IntoStaticStr', 'VariantNames']
     enums = namecorpus.build_enums(rng, tier, 'C03', derives, ['names', 'vnames'], generics_pool=('', 'ty', '', 'lt', 'const', 'ty_nd'),
                                    namings=namecorpus.NAMINGS + namecorpus.TIE_NAMINGS)
+    # a forwarding (transparent) variant next to the fixed-name ones: the impls of the whole enum must not change shape
+    from ..spec import VSpec
+    for j, e in enumerate(enums):
+        if j % 5 == 2 and not e.cis:
+            e.variants.append(VSpec(ident='FwdInner', kind='tuple', ftypes=['StaticStr'], tr=True))
+            e.extra['shape'] = e.extra.get('shape', '') + ' +transparent'
     from .. import strcorpus
     soup = strcorpus.build_soup(rng, tier, 'C03', derives=derives, feats=['names', 'vnames'], n=30 if tier == 'quick' else 300,
                                 prefix_pool=namecorpus.PREFIXES, with_default=False)
